@@ -499,9 +499,15 @@ class CRFactory(object):
         )
 
         #Deterministic contribution given by relaxation
-        det1 = (a*omega-a*np.sin(omega))/(2*omega)
-        det2 = (a/omega)*(1-np.cos(omega))
-        det3 = a/(2*omega)*(omega+np.sin(omega))
+        if omega == 0:
+            # Limits of the expressions below for omega -> 0 (no rotation of the target qubit).
+            det1 = 0
+            det2 = 0
+            det3 = a
+        else:
+            det1 = (a*omega-a*np.sin(omega))/(2*omega)
+            det2 = (a/omega)*(1-np.cos(omega))
+            det3 = a/(2*omega)*(omega+np.sin(omega))
 
         deterministic_r_ctr = -e1_ctr**2/2 * np.array([[0,0,0,0],[0,0,0,0],[0,0,a,0],[0,0,0,a]])
         deterministic_r_trg = -e1_trg**2/2 * np.array(
